@@ -33,9 +33,14 @@ def extra(r):
     return out
 
 
+def knobs(r, i):
+    # half of the programs run their collector cycles step by step, with operations of every thread in between
+    return {"stepped": i % 2 == 0, "unwinds": i % 3 == 0, "open_at_close": i % 5 == 0}
+
+
 def run(v, tier, seed, replay):
-    cases, impl, model = seqcheck.run(v, tier, seed, replay, "C07", ["C07"], tree_oracles=["no_panic"], wild_oracles=["no_panic"], extra_cases=extra,
+    cases, impl, model = seqcheck.run(v, tier, seed, replay, "C07", ["C07"], tree_oracles=["no_panic"], wild_oracles=["no_panic"], extra_cases=extra, knobs=knobs, wild_knobs=knobs,
                                       n_quick=(200, 900), n_thorough=(20000, 90000),
                                       nontrivial=lambda lines, tr: True,
-                                      assumptions=["blocking inside the allocator, the OS or parking_lot is outside the model; every call is run under a 30 s deadline",
+                                      assumptions=["blocking inside the allocator, the OS or parking_lot is outside the model; every call is run under an 8 s deadline",
                                                    "precondition of C07: guards are released in reverse order of creation on their own thread (enforced by the guard stack of the harness)"])
